@@ -6,6 +6,8 @@ pat="${1:-*}"; bad=0
 if [ -n "$(git -C /repo status --short)" ]; then echo "/repo is not clean"; exit 2; fi
 for d in seeded/$pat/; do
   id=$(basename "$d"); p=$(python3 -c "import json;m=json.load(open('$d/meta.json'));print(m['check']['cmd'].split()[1])")
+  det=$(python3 -c "import json;print(json.load(open('$d/meta.json'))['detected'])")
+  if [ "$det" != "True" ]; then echo "$id recorded-as-not-caught (skipped)"; continue; fi
   if ! git -C /repo apply --check "$PWD/$d/patch.diff" 2>/dev/null; then
     if git -C /repo apply --check -3 "$PWD/$d/patch.diff" 2>/dev/null; then :; else echo "$id patch-does-not-apply"; continue; fi
   fi
